@@ -142,6 +142,20 @@ func fixedCases(s gen.Service) [][][]byte {
 			c = append(c, 0x44, 0xff, byte(0xff-k), 0x03)
 			cases = append(cases, mk(c))
 		}
+		// attributes with value syntaxes a decoder may not model (octetString, dateTime, out-of-band values,
+		// textWithLanguage, a group delimiter inside a group), with length fields whose sum steps back onto the
+		// attribute itself
+		for _, tag := range []byte{0x30, 0x31, 0x10, 0x13, 0x35, 0x36, 0x09, 0x7f} {
+			for _, l := range [][2]uint16{{0, 0xfffb}, {0xfffb, 0}, {0xfffd, 0xfffe}, {0, 0}, {1, 0xfffa}, {0xfff0, 0x000b}} {
+				b := append([]byte{}, hdr...)
+				b = append(b, 0x01, tag, byte(l[0]>>8), byte(l[0]))
+				if l[0] == 1 {
+					b = append(b, 'n')
+				}
+				b = append(b, byte(l[1]>>8), byte(l[1]), 0x03)
+				cases = append(cases, mk(b))
+			}
+		}
 		return cases
 	case "ldap":
 		return [][][]byte{
